@@ -188,21 +188,42 @@ def rule_update_clones(ck, units, floor=2):
         return t
     done = set()
     for u in units.values():
-        by = {}
+        # per class instantiation: the member functions only the update path runs (reachable from partial_update, not from a constructor)
+        # against those the constructors run; code both paths share (first_scalar_pass) needs no comparison
+        classes = {}
         for f in u.funcs:
-            if f.cls and f.cls.split('<')[0] in CPR and f.body is not None and f.q.split('::')[-1] in ('init', 'update_transfer') and f.params:
-                tag = u.type(f.decl(f.params[-1]).get('ct'))
-                by.setdefault((f.clsfull or f.cls, tag), {})[f.q.split('::')[-1]] = f
-        for (cls, tag), d in sorted(by.items()):
-            if 'init' not in d or 'update_transfer' not in d:
-                continue
-            ini, upd = d['init'], d['update_transfer']
+            if f.cls and f.cls.split('<')[0] in CPR and f.body is not None:
+                classes.setdefault(f.clsfull or f.cls, []).append(f)
+
+        def closure(fs, roots):
+            ids = {g.id: g for g in fs}
+            seen, todo = set(), [g for g in roots]
+            while todo:
+                g = todo.pop()
+                if g.id in seen:
+                    continue
+                seen.add(g.id)
+                for c in g.calls():
+                    h = ids.get(c.get('fd'))
+                    if h is not None and h.id not in seen:
+                        todo.append(h)
+            return seen
+        by = {}
+        for cls, fs in classes.items():
+            cre = closure(fs, [g for g in fs if g.j.get('ctor')])
+            ure = closure(fs, [g for g in fs if g.q.split('::')[-1] == 'partial_update'])
+            U = [g for g in fs if g.id in ure and g.id not in cre]
+            S = [g for g in fs if g.id in cre]
+            if U and S:
+                by[cls] = (S, U)
+        for cls, (S, U) in sorted(by.items()):
             pool = {}
-            for n in ini.nodes.values():
-                if n['k'] in ('for', 'while', 'rfor'):
-                    pool.setdefault(json.dumps(shape(c02.norm_tree(ini, n, {})), sort_keys=True), []).append((n, exact(ini, n)))
+            for ini in S:
+                for n in ini.nodes.values():
+                    if n['k'] in ('for', 'while', 'rfor'):
+                        pool.setdefault(json.dumps(shape(c02.norm_tree(ini, n, {})), sort_keys=True), []).append((n, exact(ini, n), ini))
             k = 0
-            for n in sorted((x for x in upd.nodes.values() if x['k'] in ('for', 'while', 'rfor')), key=lambda x: x['i']):
+            for upd, n in sorted(((g, x) for g in U for x in g.nodes.values() if x['k'] in ('for', 'while', 'rfor')), key=lambda t: (t[0].line, t[1]['i'])):
                 cands = pool.get(json.dumps(shape(c02.norm_tree(upd, n, {})), sort_keys=True))
                 if not cands:
                     continue
@@ -212,15 +233,15 @@ def rule_update_clones(ck, units, floor=2):
                 done.add((cls.split('<')[0], upd.where(n)))
                 k += 1
                 e = exact(upd, n)
-                ok = any(e == ce for _, ce in cands)
+                ok = any(e == ce for _, ce, _g in cands)
                 det = ''
                 if not ok:
                     # name the first differing statement
-                    other = cands[0][0]
+                    other, ini = cands[0][0], cands[0][2]
                     a = [show(x) for x in walk(n) if x['k'] in ('bin', 'call') and x.get('op') in ('=', '+=', '-=', '*=', '/=')]
                     b = [show(x) for x in walk(other) if x['k'] in ('bin', 'call') and x.get('op') in ('=', '+=', '-=', '*=', '/=')]
                     diff = [(x, y) for x, y in zip(a, b) if x != y]
-                    det = 'the loop at %s of update_transfer has the shape of the loop at %s of init but is not the same loop%s: after partial_update(K, true) with an unchanged matrix the ' \
+                    det = 'the loop at %s of the update path has the shape of the loop at %s of the set-up path but is not the same loop%s: after partial_update(K, true) with an unchanged matrix the ' \
                           'pressure weights differ from those of the constructor' % (upd.where(n), ini.where(other), (' (`%s` vs `%s`)' % diff[0]) if diff else '')
                 ck.ob('update-clone-agrees', key, upd.where(n), ok, det)
 
